@@ -78,7 +78,7 @@ var options = map[string][]string{
 	GoPackage:              {},
 	GoModule:               {},
 	FixedStringPadFromLeft: {"true", "false"},
-	FixedStringPadChar:     {"'0'", "' '", "'\x00'"},
+	FixedStringPadChar:     {"'0'", "' '", "'\x00'", "'\\x00'"},
 }
 
 // BinaryModel contains metaData, options,and packets
